@@ -4,20 +4,17 @@ Property theorems only; the model is Model/Lifecycle (session.go, peer.go, socke
 lemmas live in Lemmas/Lifecycle.
 
 The machine: any number of sessions on any number of peers; per session the lock-serialised closer
-thread, the reader thread with its disconnect path (status load and status store are two steps),
-the accept thread (ServeConn order and listener order), SetID threads with the nested `hub.set`;
-`Reach false` = every interleaving of the system as coded, `Reach true` = the interleavings in
-which no `Close()` succeeds its status CAS inside one of the two windows of `racy`:
-  (1) the reader has loaded `Ok` in `readDisconnected` and not yet stored `PassiveClosing`,
-  (2) the accept path has not yet executed `changeStatus(statusOk)`.
+thread, the reader thread with its disconnect path (status load and compare-and-swap are two steps;
+a failed compare-and-swap loads again), the accept thread (ServeConn order and listener order; the
+step to Ok is a compare-and-swap from Preparing), SetID threads with the nested `hub.set`;
+`Reach` = every interleaving of the system as coded, with any goroutine calling `Close()` at any
+time (in the accept hooks, between the hooks and the step to Ok, between the reader's status load
+and its compare-and-swap, ...).
 
-Three statements of the property do NOT hold for the code as it is. For each the full-strength
-statement is kept in a comment, what holds is proved as `_partial`, and a reachable violating
-state of the model is proved as `_witness` (each witness schedule is also forced on the real code
-by the harness):
-  * closed states are left and the disconnect hook runs twice when `Close()` lands in window (1);
-  * the index loses a live session whenever an id is shared: `SessionHub.delete(id)` deletes
-    whatever session holds the id.
+Every statement of the property is proved at full strength: the lifecycle statements for every
+interleaving, the index statement for every sequential history (`C07_hub_exact`):
+`SessionHub.delete(id, sess)` removes an entry only if it still maps to the closing / re-keyed
+session, and `SetID` touches the index only for a session in Preparing / Ok.
 -/
 import Teleport.Lemmas.Lifecycle
 namespace Teleport
@@ -27,10 +24,10 @@ open Lifecycle
 /-! ## healthy, reading and handling only after the hooks succeeded -/
 
 /-- In every interleaving, for every session: `Health()` true implies the accept / dial hooks
-    succeeded and `changeStatus(statusOk)` was executed; the read loop has been started, and a
+    succeeded and the step Preparing → Ok was executed; the read loop has been started, and a
     handler has been started, only after that. (The hooks run in `Preparing`, where `Health()` is
     false.) -/
-theorem C07_healthy_after_hooks (w : World) (r : Reach false World.empty w) (s : Sess) (hs : s ∈ w.sess) :
+theorem C07_healthy_after_hooks (w : World) (r : Reach World.empty w) (s : Sess) (hs : s ∈ w.sess) :
     (s.core.health = true → s.core.est = true ∧ s.core.ph = .running) ∧
     (s.core.reader ≠ .idle → s.core.ph = .running) ∧
     (0 < s.core.handlers → s.core.ph = .running) ∧
@@ -49,7 +46,7 @@ theorem C07_healthy_after_hooks (w : World) (r : Reach false World.empty w) (s :
     · have := hi.okRunning e; rw [h] at this; cases this
     · simp [e]
 
-/-- the read loop is spawned only by a step whose guard is "`changeStatus(statusOk)` done". -/
+/-- the read loop is spawned only by a step whose guard is "the step to Ok succeeded". -/
 theorem C07_reader_starts_after_ok (c c' : Core) (h : lstep c .spawn = some c') : c.ph = .running := by
   simp only [lstep] at h
   split at h
@@ -60,7 +57,7 @@ theorem C07_reader_starts_after_ok (c c' : Core) (h : lstep c .spawn = some c') 
 
 /-- In EVERY interleaving (races included), for every session: the close notification fires at
     most once (the CAS flag), and in a closed state at a quiescent point it has fired exactly once. -/
-theorem C07_notify_once (w : World) (r : Reach false World.empty w) (s : Sess) (hs : s ∈ w.sess) :
+theorem C07_notify_once (w : World) (r : Reach World.empty w) (s : Sess) (hs : s ∈ w.sess) :
     s.core.notifyCnt ≤ 1 ∧ (s.core.st.isClosed = true → s.core.quiet = true → s.core.notifyCnt = 1) := by
   have hi := lreach_sinv (sess_reach r hs) sinv_init
   have hn := hi.notify
@@ -80,86 +77,78 @@ theorem C07_notify_once (w : World) (r : Reach false World.empty w) (s : Sess) (
 
 /-! ## the closed state is never left -/
 
-/- Full-strength statement (FALSE for the code as it is, see `C07_closed_absorbing_witness`):
-     theorem C07_closed_absorbing (w : World) (r : Reach false World.empty w) (s) (hs : s ∈ w.sess) :
-         s.core.left = false
-   i.e. in every interleaving no store ever replaces ActiveClosed / PassiveClosed by another status. -/
-
 /-- the ghost `left` means what it says: a step that changes a closed status sets it, for good. -/
 theorem C07_left_sound (c c' : Core) (e : LEv) (h : lstep c e = some c') :
     (c.st.isClosed = true → c'.st ≠ c.st → c'.left = true) ∧ (c.left = true → c'.left = true) :=
   ⟨left_sound h, left_mono h⟩
 
-/-- In every interleaving without a `Close()` CAS inside the two windows, for every session: no
-    closed state is ever left, and from a closed state every continuation keeps the status.
-    Missing for the full statement: the window between the status load and the status store of
-    `readDisconnected` (a genuine defect, see the witness) and the accept window. -/
-theorem C07_closed_absorbing_partial (w : World) (r : Reach true World.empty w) (s : Sess) (hs : s ∈ w.sess) :
+/-- In EVERY interleaving, for every session: no store ever replaces ActiveClosed / PassiveClosed by
+    another status (the ghost `left` stays false), and from a closed state every continuation —
+    `Close()` calls, the reader, the accept path, the environment, in any order — keeps the status. -/
+theorem C07_closed_absorbing (w : World) (r : Reach World.empty w) (s : Sess) (hs : s ∈ w.sess) :
     s.core.left = false ∧
-    ∀ c', LReach true s.core c' → s.core.st.isClosed = true → c'.st = s.core.st := by
+    ∀ c', LReach s.core c' → s.core.st.isClosed = true → c'.st = s.core.st := by
   have hr := sess_reach r hs
   have hs0 := lreach_sinv hr sinv_init
   have hi := lreach_rinv hr sinv_init rinv_init
   refine ⟨hi.1, fun c' r' hc => ?_⟩
   induction r' with
   | refl => rfl
-  | step e r1 hrf h ih =>
+  | step e r1 h ih =>
     rename_i b c2
     have hb := lreach_rinv r1 hs0 hi
-    have hc2 := rinv_step h (hrf rfl) (lreach_sinv r1 hs0) hb
+    have hc2 := rinv_step h (lreach_sinv r1 hs0) hb
     by_cases hne : c2.st = b.st
     · rw [hne]; exact ih
     · have : c2.left = true := left_sound h (by rw [ih]; exact hc) hne
       rw [hc2.1] at this; cases this
 
-/-- one connection; the remote end goes away; the reader loads `Ok` in `readDisconnected`; a local
-    `Close()` runs to its end (ActiveClosed, hook); the reader then stores PassiveClosing over
-    ActiveClosed and finishes its own close path. -/
-def raceSchedule : List Ev :=
+/-- `Close()` ∥ `readDisconnected`: the schedule that used to run both close paths to the end
+    (remote end gone, the reader loads `Ok`, a local `Close()` runs to its end, the reader goes on).
+    The reader's compare-and-swap fails, it loads again, finds ActiveClosed and returns. -/
+def closeVsDisconnect : List Ev :=
   [.new 0 1 0 .serve, .hookOk 0, .acc 0, .acc 0, .acc 0,
    .l 0 .eof, .l 0 .rdExit, .l 0 .dLoad,
    .l 0 .closeCall, .l 0 .cHubDel, .l 0 .cNotify, .l 0 .cCallWait, .l 0 .cStore, .l 0 .cSock, .l 0 .cHook,
-   .l 0 .dStore, .l 0 .dHubDel, .l 0 .dSock, .l 0 .dClosed, .l 0 .dNotify, .l 0 .dHook]
+   .l 0 .dStore, .l 0 .dLoad, .l 0 .dStore]
 
-/-- the race schedule is enabled step by step in the machine and ends in a quiescent state with
-    status PassiveClosed, two hook runs, one notification and the ghost `left` set. -/
-theorem C07_race_schedule_runs : ∃ w, run World.empty raceSchedule = some w ∧
+/-- that schedule ends quiescent in ActiveClosed with one hook run, one notification, no closed
+    state left. -/
+theorem C07_close_vs_disconnect_schedule : ∃ w, run World.empty closeVsDisconnect = some w ∧
     (w.sess.map fun s => (s.core.st, s.core.left, s.core.discCnt, s.core.notifyCnt, s.core.quiet)) =
-      [(.passiveClosed, true, 2, 1, true)] := by
+      [(.activeClosed, false, 1, 1, true)] := by
   refine ⟨_, rfl, ?_⟩
   decide
 
-/-- The system as coded leaves a closed state: ActiveClosed → PassiveClosing → PassiveClosed. -/
-theorem C07_closed_absorbing_witness :
-    ∃ w, Reach false World.empty w ∧ ∃ s ∈ w.sess, s.core.left = true := by
-  obtain ⟨w, hw, hm⟩ := C07_race_schedule_runs
-  refine ⟨w, reach_of_run hw, ?_⟩
-  have hmem : (Status.passiveClosed, true, 2, 1, true) ∈
-      w.sess.map fun s => (s.core.st, s.core.left, s.core.discCnt, s.core.notifyCnt, s.core.quiet) := by
-    rw [hm]; exact List.mem_singleton.2 rfl
-  obtain ⟨s, hs, hf⟩ := List.mem_map.1 hmem
-  simp only [Prod.mk.injEq] at hf
-  exact ⟨s, hs, hf.2.1⟩
+/-- `Close()` between the accept hook and the step to Ok: the schedule that used to revive the
+    closed session (ActiveClosed → Ok, reader started on the closed socket, passive close path, hook
+    twice). The accept path's compare-and-swap fails and it returns: no reader, one hook run. -/
+def closeInAccept : List Ev :=
+  [.new 0 1 0 .serve, .hookOk 0,
+   .l 0 .closeCall, .l 0 .cHubDel, .l 0 .cNotify, .l 0 .cCallWait, .l 0 .cStore, .l 0 .cSock, .l 0 .cHook,
+   .acc 0]
+
+theorem C07_close_in_accept_schedule : ∃ w, run World.empty closeInAccept = some w ∧ w.quiet = true ∧
+    (w.sess.map fun s => (s.core.st, s.core.ph, s.core.reader, s.core.left, s.core.discCnt, s.core.notifyCnt)) =
+      [(.activeClosed, .aborted, .idle, false, 1, 1)] ∧ w.hub = [] := by
+  refine ⟨_, rfl, ?_⟩
+  decide
 
 /-! ## the disconnect hook runs exactly once -/
 
-/- Full-strength statement (FALSE for the code as it is, see `C07_disconnect_hook_once_witness`):
-     theorem C07_disconnect_hook_once (w) (r : Reach false World.empty w) (s) (hs : s ∈ w.sess) :
-         s.core.discCnt ≤ 1 ∧ (s.core.est ∧ s.core.st.isClosed ∧ s.core.quiet → s.core.discCnt = 1) -/
-
-/-- In every interleaving without a `Close()` CAS inside the two windows, for every session: the
-    disconnect hook has run at most once, not at all while the session is open, and exactly once
-    when the session is closed and its threads are at rest (established or not — a session refused
-    by its accept hook runs it too). -/
-theorem C07_disconnect_hook_once_partial (w : World) (r : Reach true World.empty w) (s : Sess) (hs : s ∈ w.sess) :
+/-- In EVERY interleaving, for every session: the disconnect hook has run at most once, not at all
+    while the session is open, and exactly once when the session is closed and its threads are at
+    rest (established or not — a session refused by its accept hook, or closed while its hooks ran,
+    runs it too). -/
+theorem C07_disconnect_hook_once (w : World) (r : Reach World.empty w) (s : Sess) (hs : s ∈ w.sess) :
     s.core.discCnt ≤ 1 ∧
     ((s.core.st = .ok ∨ s.core.st = .preparing) → s.core.discCnt = 0) ∧
     (s.core.st.isClosed = true → s.core.quiet = true → s.core.discCnt = 1) := by
   exact rinv_disc (lreach_rinv (sess_reach r hs) sinv_init rinv_init)
 
-/-- non-vacuity: a race-free run in which a session is closed by `Close()` with one hook run. -/
-example : ∃ w, Reach true World.empty w ∧ ∃ s ∈ w.sess, s.core.st = .activeClosed ∧ s.core.discCnt = 1 := by
-  have r0 : Reach true World.empty World.empty := .refl _
+/-- non-vacuity: a run in which a session is closed by `Close()` with one hook run. -/
+example : ∃ w, Reach World.empty w ∧ ∃ s ∈ w.sess, s.core.st = .activeClosed ∧ s.core.discCnt = 1 := by
+  have r0 : Reach World.empty World.empty := .refl _
   have r1 := r0.step (.new 0 1 0 .serve) (c := _) rfl
   have r2 := r1.step (.hookOk 0) (c := _) rfl
   have r3 := r2.step (.acc 0) (c := _) rfl
@@ -173,23 +162,6 @@ example : ∃ w, Reach true World.empty w ∧ ∃ s ∈ w.sess, s.core.st = .act
   have r11 := r10.step (.l 0 .cSock) (c := _) rfl
   have r12 := r11.step (.l 0 .cHook) (c := _) rfl
   exact ⟨_, r12, _, List.mem_singleton.2 rfl, by decide, by decide⟩
-
-/-- The system as coded runs the disconnect hook twice for one established session (and the close
-    notification still only once). -/
-theorem C07_disconnect_hook_once_witness :
-    ∃ w, Reach false World.empty w ∧ ∃ s ∈ w.sess,
-      s.core.est = true ∧ s.core.quiet = true ∧ s.core.discCnt = 2 ∧ s.core.notifyCnt = 1 := by
-  obtain ⟨w, hw, hm⟩ := C07_race_schedule_runs
-  refine ⟨w, reach_of_run hw, ?_⟩
-  have hmem : (Status.passiveClosed, true, 2, 1, true) ∈
-      w.sess.map fun s => (s.core.st, s.core.left, s.core.discCnt, s.core.notifyCnt, s.core.quiet) := by
-    rw [hm]; exact List.mem_singleton.2 rfl
-  obtain ⟨s, hs, hf⟩ := List.mem_map.1 hmem
-  simp only [Prod.mk.injEq] at hf
-  refine ⟨s, hs, ?_, hf.2.2.2.2, hf.2.2.1, hf.2.2.2.1⟩
-  have hi := lreach_sinv (sess_reach (reach_of_run hw) hs) sinv_init
-  have := hi.pcRunning (.inr hf.1)
-  simp [Core.est, this]
 
 /-! ## calls and pushes fail fast -/
 
@@ -238,6 +210,7 @@ theorem C07_no_new_handler (c c' : Core) (e : LEv) (h : lstep c e = some c') :
   lstep_split h
   all_goals (
     first
+    | obtain ⟨rfl, g1, g2, g3, g4, rfl⟩ := h
     | obtain ⟨rfl, g1, g2, g3, rfl⟩ := h
     | obtain ⟨rfl, g1, g2, rfl⟩ := h
     | obtain ⟨rfl, g1, rfl⟩ := h
@@ -249,81 +222,75 @@ example : lstep { Core.init with ph := .running, st := .ok, reader := .loop } .r
 
 /-! ## the index is exact -/
 
-/- Full-strength statement (FALSE for the code as it is, see `C07_hub_exact_witness`):
-     theorem C07_hub_exact (w : World) (r : Reach false World.empty w) (q : w.quiet = true) :
-         w.hubExact = true
-   i.e. at every quiescent point, for every peer, `GetSession(id)` finds session `s` iff `s` is live
-   with current id `id`, and nothing else is indexed — through id changes and take-overs. -/
-
-/-- Sequential histories over {accept (with an optional `SetID` in the accept hook, accepted or
-    refused), SetID, Close, disconnect}, by induction over the operation list, with the index as
-    coded (`delete(id)` removes whatever is stored under the id): if no operation uses an id that a
-    live session holds at that moment and no closed session is re-keyed, the index is exact after
-    the history. Missing for the full statement: it is false as soon as an id is shared (next two
-    theorems); and exactness under arbitrary interleavings of the operations is not proved here
-    (the interleaving machine is only tied to this model by the correspondence run). -/
-theorem C07_hub_exact_partial (h : HSt) (ops : List HOp) (he : h.Exact) (hn : h.noShareRun ops) :
-    (h.run ops).Exact :=
-  run_exact he hn
+/-- Every sequential history over {accept (with an optional `SetID` in the accept hook, accepted
+    or refused), SetID, Close, disconnect} — by induction over the operation list, with the index as
+    coded (`delete(id, sess)` removes the entry only if it maps to `sess`; `SetID` updates the index
+    only for a session in Preparing / Ok), NO hypothesis on the operations: ids may be shared in
+    every way (a new connection with the address id of a live session — take-over, which closes
+    the older one —, `SetID` to the id of another live session in an accept hook or later, a refused
+    connection with a colliding id) and closed sessions may be re-keyed: after the history, for
+    every id, `GetSession(id)` finds session `s` iff `s` is live with current id `id`; nothing else
+    is indexed. (Exactness under arbitrary interleavings of the operations is not claimed: the
+    interleaving machine is tied to this model by the correspondence run.) -/
+theorem C07_hub_exact (h : HSt) (ops : List HOp) (he : h.Exact) : (h.run ops).Exact :=
+  run_exact he
 
 /-- from the empty peer. -/
-theorem C07_hub_exact_from_empty (ops : List HOp) (hn : HSt.empty.noShareRun ops) :
-    (HSt.empty.run ops).Exact :=
-  run_exact (by intro k t; simp [HSt.empty, AL.get]) hn
+theorem C07_hub_exact_from_empty (ops : List HOp) : (HSt.empty.run ops).Exact :=
+  run_exact (by intro k t; simp [HSt.empty, AL.get])
 
-/-- non-vacuity: accept, accept with hook SetID, re-key, close, refused accept — no id shared. -/
-example : HSt.empty.noShareRun [.accept 0 none false, .accept 2 (some 5) false, .setID 0 7, .close 1,
-    .accept 4 none true, .disconnect 0] := by
-  simp [HSt.noShareRun, HSt.noShare, HSt.apply, HSt.empty, HSt.set, HSt.setID, HSt.kill, AL.get, AL.put, AL.del]
-  constructor <;> intro t ht <;> (have : t = 0 ∨ t = 1 := by omega) <;> rcases this with rfl | rfl <;> simp
+/-- non-vacuity of the hypothesis `h.Exact` and a history full of shared ids and a re-keyed closed
+    session: the final index is `{0 ↦ session 4}` with sessions 0–3 closed. -/
+example : let h := HSt.empty.run [.accept 0 none false, .accept 0 none false, .accept 2 (some 0) false,
+    .accept 0 none true, .accept 4 none false, .setID 4 0, .close 1, .setID 1 7, .disconnect 3]
+    h.hub = [(0, 4)] ∧ (List.range 5).map h.live = [false, false, false, false, true] := by
+  decide
 
-/-- Exactly the shared id breaks it (1): a newer session takes over the id of a live one through
-    plain `ServeConn` — the older session is closed, its close path deletes the NEWER session's
-    entry: the new session is live, holds the id, and `GetSession(id)` finds nothing. -/
-theorem C07_hub_takeover_breaks (h : HSt) (id t : Nat) (he : h.Exact) (ht : t < h.n)
+/-- Take-over (1): a newer session takes over the id of a live one through plain `ServeConn` — the
+    older session is closed, its close path leaves the entry (which maps to the newer session)
+    alone: the new session is live, holds the id and `GetSession(id)` finds it. -/
+theorem C07_hub_takeover (h : HSt) (id t : Nat) (he : h.Exact) (ht : t < h.n)
     (lt : h.live t = true) (hid : h.idOf t = id) :
-    ¬ (h.apply (.accept id none false)).Exact := by
-  intro hx
-  obtain ⟨a, b, c, d⟩ := accept_collision_breaks he ht lt hid
-  have := (hx id h.n).2 ⟨c, a, b⟩
-  rw [d] at this; cases this
+    let h' := h.apply (.accept id none false)
+    h'.Exact ∧ h'.hub.get id = some h.n ∧ h'.live h.n = true ∧ h'.live t = false := by
+  obtain ⟨a, _, _, d, e⟩ := accept_takeover he ht lt hid
+  exact ⟨apply_exact he, d, a, e⟩
 
-/-- Exactly the shared id breaks it (2): `SetID` to the id of another live session. -/
-theorem C07_hub_setid_collision_breaks (h : HSt) (s t v : Nat) (he : h.Exact) (hs : s < h.n) (ht : t < h.n)
+/-- Take-over (2): `SetID` to the id of another live session: the re-keyed session is found under
+    the new id, the previous holder is closed, the old id is free. -/
+theorem C07_hub_setid_collision (h : HSt) (s t v : Nat) (he : h.Exact) (hs : s < h.n) (ht : t < h.n)
     (hst : t ≠ s) (ls : h.live s = true) (lt : h.live t = true) (hv : h.idOf t = v) (hne : h.idOf s ≠ v) :
-    ¬ (h.apply (.setID s v)).Exact := by
-  intro hx
-  obtain ⟨a, b, c, d⟩ := setID_collision_breaks he hs ht hst ls lt hv hne
-  have := (hx v s).2 ⟨by rw [c]; exact hs, a, b⟩
-  rw [d] at this; cases this
+    let h' := h.apply (.setID s v)
+    h'.Exact ∧ h'.hub.get v = some s ∧ h'.live s = true ∧ h'.live t = false ∧ h'.hub.get (h.idOf s) = none := by
+  obtain ⟨a, _, c, d, e⟩ := setID_takeover he hs ht hst ls lt hv hne
+  exact ⟨apply_exact he, c, a, d, e⟩
 
 example : ∃ h : HSt, h.Exact ∧ 0 < h.n ∧ h.live 0 = true ∧ h.idOf 0 = 0 :=
-  ⟨HSt.empty.run [.accept 0 none false], C07_hub_exact_from_empty _ (by simp [HSt.noShareRun, HSt.noShare, HSt.empty]),
-    by decide, by decide, by decide⟩
+  ⟨HSt.empty.run [.accept 0 none false], C07_hub_exact_from_empty _, by decide, by decide, by decide⟩
 
-/-- (3) re-keying a closed session puts it back into the index. -/
-theorem C07_hub_setid_closed_witness :
-    let h := HSt.empty.run [.accept 0 none false, .close 0, .setID 0 3]
-    h.live 0 = false ∧ h.hub.get 3 = some 0 := by
+/-- re-keying a closed session changes its id and leaves the index alone. -/
+theorem C07_hub_setid_closed :
+    let h := HSt.empty.run [.accept 0 none false, .accept 2 none false, .close 0, .setID 0 3]
+    h.live 0 = false ∧ h.idOf 0 = 3 ∧ h.hub = [(2, 1)] := by
   decide
 
 /-- two connections from the same address on one peer, both ends served, everything at rest. -/
 def takeoverSchedule : List Ev :=
   [.new 0 1 0 .serve, .hookOk 0, .acc 0, .acc 0, .acc 0,
    .new 0 2 0 .serve, .hookOk 1, .acc 1, .acc 1,
-   .acc 1, .acc 1, .acc 1,                       -- LoadOrStore finds session 0; Store; session0.Close()
-   .l 0 .cHubDel,                                -- session 0 deletes id 0: session 1's entry
+   .acc 1, .acc 1,                               -- LoadOrStore finds session 0, Store; session0.Close()
+   .l 0 .cHubDel,                                -- session 0: delete(id 0, session 0) — maps to session 1: kept
    .l 0 .cNotify, .l 0 .cCallWait, .l 0 .cStore, .l 0 .cSock, .l 0 .cHook,
    .acc 1,                                       -- Close() returned
    .l 0 .rdExit, .l 0 .dLoad, .l 0 .dStore]
 
-/-- The machine as coded reaches a quiescent state in which a live session is not in the index:
-    `GetSession` fails and `CountSession` is 0 with one live session. -/
-theorem C07_hub_exact_witness :
-    ∃ w, Reach false World.empty w ∧ w.quiet = true ∧ w.hubExact = false ∧
-      w.hub = [] ∧ (w.sess.map fun s => s.live) = [false, true] := by
-  have : ∃ w, run World.empty takeoverSchedule = some w ∧ w.quiet = true ∧ w.hubExact = false ∧
-      w.hub = [] ∧ (w.sess.map fun s => s.live) = [false, true] := by
+/-- In the interleaving machine the take-over schedule ends quiescent with the index exact: the
+    newer session is live and indexed under the id, the older one is closed. -/
+theorem C07_hub_takeover_schedule :
+    ∃ w, Reach World.empty w ∧ w.quiet = true ∧ w.hubExact = true ∧
+      w.hub = [((0, 0), 1)] ∧ (w.sess.map fun s => s.live) = [false, true] := by
+  have : ∃ w, run World.empty takeoverSchedule = some w ∧ w.quiet = true ∧ w.hubExact = true ∧
+      w.hub = [((0, 0), 1)] ∧ (w.sess.map fun s => s.live) = [false, true] := by
     refine ⟨_, rfl, ?_⟩
     decide
   obtain ⟨w, hw, h⟩ := this
